@@ -48,12 +48,12 @@ type Op struct {
 }
 
 type Mem struct {
-	mu     sync.Mutex
-	Prefix string
-	kv     map[string][]byte
-	seen   map[string]int
-	Hook   func(op, key string, nth int) Fault
-	Log    []Op
+	mu      sync.Mutex
+	Prefix  string
+	kv      map[string][]byte
+	seen    map[string]int
+	Hook    func(op, key string, nth int) Fault
+	Log     []Op
 	KeepLog bool
 }
 
